@@ -448,7 +448,10 @@ impl<'tcx> Cx<'tcx> {
                 None => "null".to_string(),
             };
             if lite {
-                let _ = write!(out, "{{\"ty\":\"\",\"name\":{}}}", n);
+                // generated parser (40 kLOC): keep only types that matter to the order rules
+                let t = self.ty(d.ty);
+                let keep = t.contains("hash") || t.contains("Hash");
+                let _ = write!(out, "{{\"ty\":{},\"name\":{}}}", q(if keep { &t } else { "" }), n);
             } else {
                 let _ = write!(out, "{{\"ty\":{},\"name\":{}}}", q(&self.ty(d.ty)), n);
             }
